@@ -187,6 +187,14 @@ func c15R2(c *Ctx, rule string) {
 		if n != 1 {
 			c.Bad(rule, "finalize:return-nil", c.P.Pos(fn.Pos()), "one success return", fmt.Sprintf("%d", n))
 		}
+		engine.EachInstr(fn, func(in ssa.Instruction) {
+			if crc == nil {
+				return
+			}
+			if _, ok := c.P.StoredValue(in, crc); ok {
+				c.RequireAt(r, rule, "finalize:crc-after-flush", in, "the checksum is taken only after the buffered writer was flushed (so it covers every byte of the state file)", func(v engine.View) bool { return v.Seen("flush") && v.F("flushErr") })
+			}
+		})
 		for _, s := range c.P.CallsIn(fn, engine.Is("(*os.File).Sync")) {
 			c.RequireAt(r, rule, "finalize:sync-after-flush", s.Instr, "fsync of the state file comes after the buffered writer was flushed into it", func(v engine.View) bool { return v.Seen("flush") && v.F("flushErr") })
 		}
